@@ -9,7 +9,7 @@ PROP = dict(
                     "and ASan/UBSan watch every access.  Exploration, not proof: larger capacities are sampled."),
         level_note="trusts the deque model in harness/c13_queue.c / c13_cxx.cpp, gcc ASan+UBSan red zones (non-adjacent stray writes into other live blocks are not seen)",
         legs=[dict(name="c13_queue", src=["c13_queue.c"], libs=["mptcore"], batch=512, memcheck=3000,
-                   floors={"mpt_qpop": 500, "mpt_queue_crop": 500, "state:wrapped": 2000, "mpt_queue_load": 5000, "mpt_message_get": 5000, "state:message-view-with-continuation": 1000, "mpt_queue_save": 2000,
+                   floors={"mpt_qpop": 500, "mpt_queue_crop": 500, "state:wrapped": 2000, "mpt_queue_load": 5000, "mpt_message_get": 5000, "monitor:huge-length-refusals": 20000, "state:message-view-with-continuation": 1000, "mpt_queue_save": 2000,
                            "state:load-with-limit-below-free-space": 2000, "state:load-save-on-wrapped": 500,
                            "monitor:readbacks": 20000, "history:reached-wrapped": 1000}),
               dict(name="c13_cxx", memcheck=500, src=["c13_cxx.cpp"], libs=["mpt++", "mptio", "mptplot", "mptcore"], batch=512,
